@@ -50,6 +50,8 @@ type xStmt struct {
 	Shows  []string // showall: names displayed
 	Multi  bool     // rendered as an expression statement that spans two physical lines
 	ArgBad bool     // the call's argument expression itself raises (1 / 0): the callee never runs
+	ChainBad bool   // callm: the call is the first link of a chain 以O（法）、（无此法） whose second, built-in link fails
+	Arity  int      // != 0: the call passes this many arguments more (+) or fewer (-) than the callee declares: the call fails in the CALLER
 	Alias  string   // the function is first bound to this local name and called through it (functions are values)
 	Line   int    // physical line (1-based) assigned by the renderer
 }
@@ -561,6 +563,14 @@ func (g *xGen) stmtsIn(b *xBody, fs []*xBody, cs []*xClass, n int, depth int, to
 			if st.HasArg && g.t.Draw(10) == 9 {
 				st.ArgBad = true
 			}
+			// a call with the wrong number of arguments: an error of the call statement — the
+			// callee's own handlers have nothing to do with it
+			if !st.ArgBad && !f.Recur && g.t.Draw(12) == 11 {
+				st.Arity = 1
+				if st.HasArg && g.t.Draw(2) == 1 {
+					st.Arity = -1
+				}
+			}
 			if !st.Multi && g.t.Draw(6) == 5 {
 				st.Alias = "别" + g.local()
 			}
@@ -597,6 +607,9 @@ func (g *xGen) stmtsIn(b *xBody, fs []*xBody, cs []*xClass, n int, depth int, to
 				if m.Param != "" {
 					st.HasArg, st.Arg = true, g.t.Draw(50)
 				}
+				// a method chain whose second link is a built-in method that does not exist: the first
+				// link runs completely, the fault belongs to the statement (a native frame at most)
+				st.ChainBad = g.t.Draw(4) == 3
 				out = append(out, st)
 				afterCall()
 			}
@@ -748,6 +761,14 @@ func (x *xRender) stmts(indent int, ss []*xStmt) {
 			if s.ArgBad {
 				call = fmt.Sprintf("（%s：%d / 0）", s.Fn, s.Arg)
 			}
+			switch {
+			case s.Arity > 0 && s.HasArg:
+				call = fmt.Sprintf("（%s：%d、7）", s.Fn, s.Arg)
+			case s.Arity > 0:
+				call = fmt.Sprintf("（%s：7）", s.Fn)
+			case s.Arity < 0:
+				call = "（" + s.Fn + "）"
+			}
 			if s.Alias != "" {
 				x.emit(indent, fmt.Sprintf("令%s = %s", s.Alias, s.Fn))
 				call = strings.Replace(call, "（"+s.Fn, "（"+s.Alias, 1)
@@ -762,6 +783,9 @@ func (x *xRender) stmts(indent int, ss []*xStmt) {
 			call := fmt.Sprintf("以%s（%s）", s.Obj, s.Fn)
 			if s.HasArg {
 				call = fmt.Sprintf("以%s（%s：%d）", s.Obj, s.Fn, s.Arg)
+			}
+			if s.ChainBad {
+				call += "、（无此法）"
 			}
 			s.Line = x.emit(indent, fmt.Sprintf("令%s = %s", s.Var, call))
 			x.emit(indent, fmt.Sprintf("（显示：“%s=”、%s）", s.Var, s.Var))
@@ -1154,6 +1178,13 @@ func (m *xRef) run(ss []*xStmt) (ret *xVal, ex *xRaise) {
 			if s.ArgBad {
 				return nil, m.raise("异常", "被除数不得为0", "div0")
 			}
+			if s.Arity != 0 {
+				declared := 0
+				if m.funcs[s.Fn].Param != "" {
+					declared = 1
+				}
+				return nil, m.raise("异常", fmt.Sprintf("此方法定义了%d个参数，而实际输入%d个参数", declared, declared+s.Arity), "arity")
+			}
 			v, e := m.call(m.funcs[s.Fn], nil, s)
 			if e != nil {
 				return nil, e
@@ -1173,6 +1204,10 @@ func (m *xRef) run(ss []*xStmt) (ret *xVal, ex *xRaise) {
 			v, e := m.call(mb, o, s)
 			if e != nil {
 				return nil, e
+			}
+			if s.ChainBad {
+				fr.line = s.Line
+				return nil, m.raise("异常", "方法「无此法」不存在", "chain.nomethod")
 			}
 			fr.declare(s.Var, v)
 			m.display = append(m.display, s.Var+"= "+v.String())
@@ -1434,6 +1469,11 @@ func runExc(t *zsim.Tape, cfg *hlib.Config, prop string) *hlib.Outcome {
 		return out
 	}
 	// ---- C18 oracle: only meaningful when behaviour agreed and ended in an uncaught error
+	if exp.Raise != nil && exp.Raise.kind == "arity" {
+		// the call failed before the callee ran a statement: whether the callee's (already pushed)
+		// frame is listed, and at which line, the property does not say
+		return out
+	}
 	if !agree || exp.Raise == nil {
 		out.Trivial = true
 		return out
